@@ -54,7 +54,9 @@ def zoo(rng):
             np.array(['ab', 'cde']), np.array([b'x'], dtype='S3'), np.array(['2020-01-01'], dtype='datetime64[D]'),
             np.arange(4).astype('>i2'), np.bool_(True), np.zeros((0, 3)), np.array([[1 + 2j]]),
             # bytes whose content happens to be a pickle (messages already serialised upstream): they are bytes, and stay bytes
-            pickle.dumps({'msg': 1, 'body': [1, 2]}), b'N.', pickle.dumps(b'inner'), pickle.dumps(None, protocol=0), bytearray(b'N.')]
+            pickle.dumps({'msg': 1, 'body': [1, 2]}), b'N.', pickle.dumps(b'inner'), pickle.dumps(None, protocol=0), bytearray(b'N.'),
+            # object graphs that need the pickler's memo: shared and cyclic references
+            Twice(3), _cyclic()]
 
 
 def sized_element(target):
@@ -68,6 +70,24 @@ def sized_element(target):
         if L < 0:
             return None
     return None
+
+
+class Twice:
+    """a record that refers to ONE list twice (x is y): after a trip through pickle it still does"""
+    def __init__(self, k):
+        self.x = [k, k + 1]
+        self.y = self.x
+
+    def __eq__(self, other):
+        return type(other) is Twice and self.x == other.x and self.y == other.y and (self.x is self.y) == (other.x is other.y)
+
+    __hash__ = None
+
+
+def _cyclic():
+    c = [1, 2]
+    c.append(c)          # a list that contains itself: picklable, and replayed as such
+    return c
 
 
 def deep_equal(a, b):
@@ -229,6 +249,58 @@ def _run_case(ctx, tmp, case_id, elems, stop, k, level, target, exc, edit=False)
     return case, dict(demands=demands, got=len(got), back=len(back), raised=raised is not None, drawn=src.i)
 
 
+OTHER_STREAM = [None]
+
+
+class Nudge:
+    """an element whose pickling makes ANOTHER recorded stream advance by one element (its __reduce__ reads a live source that is itself
+    tapped): two recordings in one process do not share anything"""
+    def __init__(self, k):
+        self.k = k
+
+    def __reduce__(self):
+        if OTHER_STREAM[0] is not None:
+            next(OTHER_STREAM[0], None)
+        return (Nudge, (self.k,))
+
+    def __eq__(self, other):
+        return type(other) is Nudge and other.k == self.k
+
+    __hash__ = None
+
+
+def nested_recording_case(ctx, tmp):
+    from generatorpipeline.streamfunctions import savestream, loadstream
+    for target in ('bytesio', 'name'):
+        f1 = io.BytesIO() if target == 'bytesio' else os.path.join(tmp, 'nest1.zip')
+        f2 = io.BytesIO() if target == 'bytesio' else os.path.join(tmp, 'nest2.zip')
+        inner = ['inner-%d-%s' % (i, 'x' * 40) for i in range(4)]
+        outer = ['a', Nudge(1), 'b', Nudge(2), Nudge(3)]
+        case = dict(nested_recordings=True, target=target, outer=['str', 'Nudge', 'str', 'Nudge', 'Nudge'], inner=len(inner))
+        ctx.case(('nested-recordings', target), True, sample=case)
+        ctx.count('nested_recordings')
+        OTHER_STREAM[0] = savestream(iter(inner), f2)
+        try:
+            got = list(savestream(iter(outer), f1))
+            rest = list(OTHER_STREAM[0])
+        except Exception as e:  # noqa
+            ctx.fail('archive-replay-differs:nested', 'two recordings, one advancing while the other pickles an element: raised %r' % (e,), case)
+            continue
+        finally:
+            OTHER_STREAM[0] = None
+        try:
+            for f in (f1, f2):
+                if target == 'bytesio':
+                    f.seek(0)
+            back1, back2 = list(loadstream(f1)), list(loadstream(f2))
+        except Exception as e:  # noqa
+            ctx.fail('archive-replay-differs:nested', 'two recordings, one advancing while the other pickles an element: loading raised %r' % (e,), case)
+            continue
+        if back1 != outer or back2 != inner or len(rest) != 1:
+            ctx.fail('archive-replay-differs:nested', 'two recordings, one advancing while the other pickles an element: the first replays %r, the second %r'
+                     % ([getattr(x, 'k', x) for x in back1], [str(x)[:9] for x in back2]), case)
+
+
 def reuse_and_environment_cases(ctx, tmp):
     from generatorpipeline.streamfunctions import savestream, loadstream
     rng = ctx.rng
@@ -328,6 +400,7 @@ def check(ctx):
                     lines.append('strm.save %d %s | %s' % (n, 'e1' if stop == 'srcfail' else '-', ' '.join(r['demands'])))
                     metas.append((case, r))
         reuse_and_environment_cases(ctx, tmp)
+        nested_recording_case(ctx, tmp)
         # elements whose pickled size sits on / next to powers of two
         targets = [m * 2 ** p + d for p in (8, 10, 12, 14, 16, 17, 20) for m in (1, 3) for d in (-1, 0, 1, 2)]
         rng.shuffle(targets)
